@@ -43,6 +43,41 @@ def check_filedata(p):
         eq(devs, f"dec.repack.{tag}", bytes(y.pack()), want)
         eq(devs, f"dec.packet_len.{tag}", y.packet_len, len(want))
         eq(devs, f"dec.pdu_data_field_len.{tag}", y.pdu_data_field_len, len(want) - hl)
+    if len(data) <= 4096:
+        devs.extend(M.pdu_histories(p, want, wo, cls.unpack))
+        devs.extend(_filedata_histories(p, data, want))
+    return devs
+
+
+def _filedata_histories(p, data, want):
+    """Caller-owned mutable file data / metadata buffers and a metadata object that is updated in place and assigned again."""
+    from spacepackets.cfdp import pdu as P
+    from spacepackets.cfdp.pdu.file_data import RecordContinuationState, SegmentMetadata
+
+    from ..core import scribble
+
+    devs = []
+    c_data = bytearray(data)
+    meta = None
+    c_meta = None
+    if p.get("meta") is not None:
+        c_meta = bytearray(bytes.fromhex(p["meta"]["data"]))
+        meta = SegmentMetadata(RecordContinuationState(p["meta"]["state"]), c_meta)
+    x = P.FileDataPdu(M.build_conf(p["conf"]), P.FileDataParams(c_data, p["offset"], meta))
+    eq(devs, "hist.bytearray_inputs.pack", bytes(x.pack()), want)
+    eq(devs, "hist.bytearray_inputs.pack_again", bytes(x.pack()), want)
+    eq(devs, "hist.bytearray_inputs.caller_file_data_untouched", bytes(c_data), data)
+    if c_meta is not None:
+        eq(devs, "hist.bytearray_inputs.caller_metadata_untouched", bytes(c_meta), bytes.fromhex(p["meta"]["data"]))
+        # the metadata object the PDU holds is updated in place by its owner and assigned again through the documented setter
+        held = x.segment_metadata
+        new_md = (bytes.fromhex(p["meta"]["data"]) + b"\x77\x66")[:63]
+        held.metadata = new_md
+        x.segment_metadata = held
+        q = {**p, "meta": {"state": p["meta"]["state"], "data": new_md.hex()}}
+        want2 = M.ref_pdu(q)
+        eq(devs, "hist.metadata_updated_in_place_then_assigned.pack", bytes(x.pack()), want2)
+        eq(devs, "hist.metadata_updated_in_place_then_assigned.packet_len", x.packet_len, len(want2))
     return devs
 
 
